@@ -279,7 +279,12 @@ func (ch *channel) Free() {
 
 // receive is called by the connection to receive a message.
 func (ch *channel) receive(msg pmpx.Message) status.Status {
-	s := ch.acquire()
+	// The channel can be freed concurrently by the send loop or the user,
+	// ignore messages for freed channels.
+	s, ok := ch.tryAcquire()
+	if !ok {
+		return status.OK
+	}
 	defer ch.release()
 
 	// Ignore messages if closed
@@ -316,6 +321,25 @@ func (ch *channel) acquire() *channelState {
 		panic("acquire of freed channel")
 	}
 	return s
+}
+
+// tryAcquire increments the refcounter and returns the channel state, or false if freed.
+func (ch *channel) tryAcquire() (*channelState, bool) {
+	for {
+		refs := ch.refs.Load()
+		if refs <= 0 {
+			return nil, false
+		}
+		if ch.refs.CompareAndSwap(refs, refs+1) {
+			break
+		}
+	}
+
+	s := ch.state.Load()
+	if s == nil {
+		panic("acquire of freed channel")
+	}
+	return s, true
 }
 
 // release decrements the internal refs counter.
